@@ -23,6 +23,7 @@ class NullFlow(Engine):
         self.reads: Dict[str, set] = {}
         self.listings: Dict[str, dict] = {}
         self.parses: Dict[str, set] = {}
+        self.truthkinds: Dict[tuple, set] = {}
         self.values: Dict[str, set] = {}
 
     def count(self, kind, st, node):
@@ -34,6 +35,19 @@ class NullFlow(Engine):
         self.find_('NO-ELEM-BOOL', st, node, f'bool({self.describe(elem, st)})',
                    'an Element is used as a condition: its truth value is "has children" (a childless element is false) and '
                    'testing it emits DeprecationWarning on Python 3.12, which -W error turns into an exception')
+
+    def on_truth_val(self, st, node, val=None):
+        """a condition evaluated on a value that is None on one path and a number on another: zero and "unknown" are conflated"""
+        if node is None or st.frame.func is None:
+            return
+        key = (st.frame.func.short, norm(node), st.frame.func.file, getattr(node, 'lineno', 0))
+        kinds = self.truthkinds.setdefault(key, set())
+        kinds.add('none' if isinstance(val, NoneV) else 'num')
+        if kinds == {'none', 'num'}:
+            fd = Finding('ZERO-VS-NONE', key[0], f'truth value of {key[1]}',
+                         'the tested value can be None (not in the document) or a number: 0 / 0.0 is then treated like a missing value although it is data',
+                         key[2], key[3], self.entry, self.witness(st))
+            self.findings.setdefault(fd.key, fd)
 
     def on_parse(self, st, node, name=None, args=(), kwargs=None):
         self.parses.setdefault(self.entry, set()).add((name.split('.')[-1], tuple(self.describe(a, st) for a in args), tuple(sorted(kwargs or {}))))
